@@ -410,7 +410,10 @@ func (multiSource *MultiSource) findChanges(depDataset *server.Dataset, depSince
 	}
 
 	ids := make([]uint64, 0)
-	continuation, err := depDataset.ProcessChanges(depSince.AsIncrToken(), batchSize, multiSource.LatestOnly,
+	// every version of a dependency entity is looked at, also when the source is LatestOnly: a superseded
+	// version may be the one that removed a link, and the lookup of removed links goes back only to the
+	// change before the page. Skipping it, the main entities it used to link to were never emitted
+	continuation, err := depDataset.ProcessChanges(depSince.AsIncrToken(), batchSize, false,
 		func(entity *server.Entity) {
 			ids = append(ids, entity.InternalID)
 		})
